@@ -220,6 +220,8 @@ def _term(term, z):
 def objective_value(task_spec, z):
     """Raw value the user's objective returns for features z: a float, or a list for multi-objective."""
     terms = task_spec["objective"]["terms"]
+    if task_spec["objective"].get("force_scalar"):
+        return _term(terms[0], z)
     if task_spec.get("weights") is None and len(terms) == 1 and not task_spec["objective"].get("as_list"):
         return _term(terms[0], z)
     return [_term(t, z) for t in terms]
